@@ -216,10 +216,10 @@ pub fn record(a: &Args) {
     names.push("9_46".into());
     let picked: Vec<String> = if th { names.clone() } else {
         // quick: the small ones, 9_46 (the only pair with s0 < s1), and a seeded sample of the rest
-        let mut v: Vec<String> = ["3_1", "4_1", "5_2a", "6_2a", "9_46"].iter().map(|s| s.to_string()).collect();
+        let mut v: Vec<String> = ["3_1", "4_1", "5_2a", "6_2a", "7_1", "9_46"].iter().map(|s| s.to_string()).collect();
         let mut rest: Vec<String> = names.iter().filter(|s| !v.contains(s)).cloned().collect(); rest.shuffle(&mut rng);
         v.extend(rest.into_iter().take(4)); v };
-    let (mut hist, mut panics, mut complexes, mut pairs, mut tables, mut max_n) = (0usize, 0usize, 0usize, 0usize, 0usize, 0usize);
+    let (mut hist, mut panics, mut complexes, mut pairs, mut tables, mut max_n, mut sweeps) = (0usize, 0usize, 0usize, 0usize, 0usize, 0usize, 0usize);
     for name in picked.iter() {
         let pd = table_code(name); let n = pd.len(); max_n = max_n.max(n);
         // history 1: load, observe everything, re-list, observe, mirror, observe, re-list, pairs
@@ -248,9 +248,22 @@ pub fn record(a: &Args) {
             }
             panics += r.panics; complexes += r.complexes; pairs += r.pairs; tables += r.tables; hist += 1;
         }
+        // history 3 (listing sweep): the half of the diagram the symmetric builder works on is chosen from the order in
+        // which the crossings are listed; with >= 3 off-axis crossings per side that choice has many cases, so the pair is
+        // observed under many listings (one ring, cheap) - a call that panics is an event the specification cannot explain
+        if n >= 7 {
+            t.emit(&json!({"op": "reset", "res": "ok", "d": []}));
+            let mut r = Rec { t: &mut t, pd: vec![], mir: false, cur: None, panics: 0, complexes: 0, pairs: 0, tables: 0 };
+            r.load(name, pd.clone(), false);
+            if r.cur.is_some() {
+                r.ssi("P", false);
+                for k in 0..(if th { 40 } else { 24 }) { r.reorder(&mut rng); r.ssi("P", k % 2 == 1); sweeps += 1; }
+            }
+            panics += r.panics; pairs += r.pairs; hist += 1;
+        }
     }
     let n = t.finish();
-    summary("record", json!({"events": n, "histories": hist, "knots": picked.len(), "complexes": complexes, "pairs": pairs, "bigraded_tables": tables, "max_crossings": max_n, "panics": panics}));
+    summary("record", json!({"events": n, "histories": hist, "knots": picked.len(), "complexes": complexes, "pairs": pairs, "bigraded_tables": tables, "max_crossings": max_n, "panics": panics, "listing_sweep_orders": sweeps}));
 }
 
 // ------------------------------------------------------------------ replay (spec -> impl)
